@@ -38,7 +38,8 @@ static struct {
 	nsync_mu mu;
 	nsync_cv cv;
 	nsync_note note;
-	int var[NV];
+	int var[NV];                    /* PLAIN: protected by mu (ThreadSanitizer judges the hand-off) */
+	int varsh[NV];                  /* shadow kept with relaxed atomics (no happens-before edges) for oracles that run outside the mutex */
 	int W, R;
 	int nw;                         /* waiters: tids 1..nw */
 	int traffic, cvtraffic;         /* tids of the optional extra threads, or 0 */
@@ -176,7 +177,7 @@ static void quiescence_check (const char *when) {
 	rt_cover (CV_QCHECKS);
 	for (t = 1; t <= S.nw; t++) {
 		int k = sc_get (&S.waiting_on[t]);
-		if (k >= 0 && S.var[k] && rt_thread_blocked (t))
+		if (k >= 0 && sc_get (&S.varsh[k]) && rt_thread_blocked (t))
 			rt_violation ("cond-true-asleep", rt_thread_op (t), "%s: waiter %d (%s, %s mode) is asleep although its condition var[%d] was made true by a section that ended with nsync_mu_unlock and nothing else can run (mutex word %#x)",
 				      when, t, rt_thread_op (t), S.w[t].reader ? "read" : "write", k, sc_word (&S.mu.word));
 	}
@@ -191,7 +192,7 @@ static void idle_check (void) {
 	if ((word & (SC_MU_ANY_LOCK | 2u)) != 0) return;
 	for (t = 1; t <= S.nw; t++) {
 		int k = sc_get (&S.waiting_on[t]);
-		if (k >= 0 && S.var[k] && rt_thread_blocked (t))
+		if (k >= 0 && sc_get (&S.varsh[k]) && rt_thread_blocked (t))
 			rt_violation ("cond-true-asleep", rt_thread_op (t), "idle instant (only deadlines pending): waiter %d (%s, %s mode) is asleep although its condition var[%d] is true and the mutex is free (word %#x)",
 				      t, rt_thread_op (t), S.w[t].reader ? "read" : "write", k, word);
 	}
@@ -211,8 +212,8 @@ static void driver (void) {
 		RT_OP ("nsync_mu_lock", nsync_mu_lock (&S.mu));
 		if (rt_op_sleeps ()) rt_cover (CV_DRV_SLEPT);
 		enter (1, "nsync_mu_lock");
-		if (S.sec_clr[i] >= 0) { S.var[S.sec_clr[i]] = 0; rt_cover (CV_TOGGLE); }
-		if (S.sec_set[i] >= 0) S.var[S.sec_set[i]] = 1;
+		if (S.sec_clr[i] >= 0) { S.var[S.sec_clr[i]] = 0; sc_set (&S.varsh[S.sec_clr[i]], 0); rt_cover (CV_TOGGLE); }
+		if (S.sec_set[i] >= 0) { S.var[S.sec_set[i]] = 1; sc_set (&S.varsh[S.sec_set[i]], 1); }
 		rt_ev (0x900u + (uint32_t) (S.sec_set[i] + 1) + ((uint32_t) (S.sec_clr[i] + 1) << 4));
 		if (S.releaser && S.drv_endwait[i]) {
 			/* end the section by waiting: the release inside nsync_mu_wait must wake the waiters of var[] just as an unlock would */
@@ -243,7 +244,7 @@ static void releaser (void) {
 		rt_cover (CV_QCHECKS);
 		for (t = 1; t <= S.nw; t++) {
 			int k = sc_get (&S.waiting_on[t]);
-			if (k >= 0 && S.var[k] && rt_thread_blocked (t))
+			if (k >= 0 && sc_get (&S.varsh[k]) && rt_thread_blocked (t))
 				rt_violation ("cond-true-asleep", rt_thread_op (t), "waiter %d (%s, %s mode) is asleep although its condition var[%d] is true, the section that made it true has released the mutex (%s) and nothing else can run (mutex word %#x)",
 					      t, rt_thread_op (t), S.w[t].reader ? "read" : "write", k, sc_get (&S.driver_waiting) ? "by waiting in nsync_mu_wait" : "by nsync_mu_unlock", sc_word (&S.mu.word));
 			if (!rt_thread_done (t)) pending = 1;
@@ -278,7 +279,7 @@ static int setup (uint64_t seed) {
 	(void) seed;
 	nsync_mu_init (&S.mu); nsync_cv_init (&S.cv);
 	S.note = nsync_note_new (NULL, nsync_time_no_deadline);
-	memset (S.var, 0, sizeof (S.var));
+	memset (S.var, 0, sizeof (S.var)); memset (S.varsh, 0, sizeof (S.varsh));
 	S.W = S.R = 0;
 	S.nw = 2 + (int) rt_rand_n ((unsigned) (maxw - 1));
 	for (t = 0; t < RT_MAXT; t++) S.waiting_on[t] = -1;
